@@ -20,7 +20,7 @@ from ..oracles import cf_fscm as S
 from . import c18 as C18
 
 PROP = "C07"
-RULE = ("random ADMGs with 1-5 nodes x conjunctions of 1-4 counterfactual events over <=3 counterfactual worlds plus the "
+RULE = ("(12%: structured 'districts' inputs -- a district {a, b} with a <-> b AND a -> b next to other districts, both a and b in the event) random ADMGs with 1-5 nodes x conjunctions of 1-4 counterfactual events over <=3 counterfactual worlds plus the "
         "factual world (shared/distinct subscripts, x / x' values, self-interventions, repeated variables); the paper "
         "examples (Shpitser-Pearl fig. 9, Tikka) and all past witnesses first; a small malformed stream. Every case is run "
         "under every iteration order of the worlds and both orders of district nodes. A case is non-trivial when the event "
@@ -83,12 +83,46 @@ CORPUS = [
 ]
 
 
+def _gen_districts(rng: random.Random):
+    """structured: a counterfactual graph with >= 2 districts one of which has an INTERNAL directed edge: nodes a, b joined by
+    a bidirected edge AND a -> b (one district {a, b}), further nodes in districts of their own, directed edges between
+    the districts; the event mentions both a and b (so line 6 sees the district {a, b} with a parent inside it) in at most one
+    counterfactual world, mostly unstarred values (inside the ID* fragment the answer must be exact)"""
+    n = rng.choice([3, 3, 4, 4, 5])
+    order = list(range(n))
+    rng.shuffle(order)
+    a, b = order[0], order[1]
+    if rng.random() < 0.5:            # put something in front of the district
+        order = order[2:3] + [a, b] + order[3:]
+    di, bi = [[a, b]], [[a, b]]
+    for i in range(n):
+        for j in range(i + 1, n):
+            e = [order[i], order[j]]
+            if e != [a, b] and rng.random() < 0.45:
+                di.append(e)
+    rest = [v_ for v_ in order if v_ not in (a, b)]
+    if len(rest) >= 2 and rng.random() < 0.3:
+        bi.append(rest[:2])
+    g = {"nodes": sorted(order), "di": di, "bi": bi}
+    w = ()
+    if rest and rng.random() < 0.6:
+        w = tuple(sorted((x, "m" if rng.random() < 0.85 else "p") for x in rng.sample(rest, rng.choice([1, 1, 2][:len(rest)] or [1]))))
+    val = lambda: "m" if rng.random() < 0.85 else "p"    # noqa: E731
+    keys = [a, b] + [x for x in rest if x not in {y for y, _ in w} and rng.random() < 0.5]
+    ev = [[K.mkvar(k, tuple(p_ for p_ in w if p_[0] != k)), val()] for k in keys]
+    return g, K.sort_event(ev)
+
+
 def cases(rng: random.Random, tier: str):
     out = [dict(c, seed=2000 + i) for i, c in enumerate(CORPUS)]
     out += K.load_corpus("C07")
     n = 2000 if tier == "quick" else 6000
     for _ in range(n):
         big = rng.random() < (0.12 if tier == "quick" else 0.3)
+        if rng.random() < 0.12:
+            g, ev = _gen_districts(rng)
+            out.append({"g": g, "event": ev, "seed": rng.randrange(1 << 30), "gen": "districts"})
+            continue
         g = K.rand_admg(rng, 1, 5 if big else 4)
         ev = K.rand_event(rng, g, max_worlds=3 if rng.random() < 0.3 else 2, max_items=4 if big else 3)
         c = {"g": g, "event": ev, "seed": rng.randrange(1 << 30)}
@@ -389,7 +423,7 @@ def run_python(case):
             "in_domain": r["in_domain"], "has_bidirected": bool(case["g"]["bi"]),
             "single_world_leaves": all(single_world(x[1]) for x in by_order if x[0] == "ok"),
             "failure_kind": r["kind"], "in_fragment": r["in_fragment"],
-            "in_fragment_past_line3": bool(r["in_fragment"] and past3)}
+            "in_fragment_past_line3": bool(r["in_fragment"] and past3), "gen": case.get("gen", "random")}
     nontrivial = r["in_domain"] and K.n_worlds(ev) >= 1 and bool(case["g"]["di"] or case["g"]["bi"]) and past3 and \
         shape in ("P", "sum", "prod", "unidentifiable", "zero")
     out = {"out": ["orders", by_order], "fail": r["fail"], "nontrivial": bool(nontrivial), "tags": tags}
